@@ -20,15 +20,15 @@ def main(tier, seed):
             (T, dict(K=3, k=2, ls_mode="unit", maxcor=2, maxcor_restart=1)), (T, dict(K=3, k=2, ls_mode="unit", maxcor=3))]
     if tier != "quick":
         jobs += [(T, dict(K=3, k=1, k2=2, ls_mode="unit")), (T, dict(K=3, k=2, ls_mode="lean")), (T, dict(K=4, k=2, ls_mode="unit", maxcor=3)),
-                 (T, dict(K=4, k=3, ls_mode="unit", maxcor=3, maxcor_restart=1)),
-                 (T, dict(K=4, k=1, k2=3, ls_mode="unit", maxcor=2))]
+                 (T, dict(K=4, k=3, ls_mode="unit", maxcor=3, maxcor_restart=1))]
+        # (a K=4 chain k=1 -> k2=3 exhausts 60000 paths without finishing: outside the bound, chains are decided for K=3)
     exs = driver.explore_many(jobs, time_limit=1500 if tier == "quick" else 10000, timeout_ms=30000, max_paths=60000)
     for ex in exs:
         chk.add(ex)
         if ex.candidates:
             rel_common.confirm(chk, ex, "scenario_restart", case_of)
     rel_common.finish_common(chk, exs, "scenario_restart", case_of, tier)
-    chk.bounds = dict(K="2..3 (thorough 4)", split="every k used: 1..K-1", maxcor="1..3, kept or reduced at restart", chains="thorough: k -> k2 -> K", n="1")
+    chk.bounds = dict(K="2..3 (thorough 4)", split="every k used: 1..K-1", maxcor="1..3, kept or reduced at restart", chains="thorough: k=1 -> k2=2 -> K=3", n="1")
     chk.notes.append("When the update at the split point was skipped by the curvature test, result.x is not the newest retained point and the checkpoint format cannot say so; pairs formed later may then differ. The property (pairs carried over, next iterate) is unaffected; full-K equality is asserted only when the update at the split was stored.")
     chk.outside.append("n >= 2 in the relational runs (the curvature products s.y of two symbolic vectors leave nlsat undecided at 30 s; the orchestration code is dimension-agnostic array code)")
     chk.sample(dict(runs=["U: maxiter=K", "A: maxiter=k", "B0: restart from A, maxiter=k", "B1/U1: maxiter=k+1", "B: restart from A, maxiter=K"],
